@@ -81,12 +81,14 @@ struct Node {
     sends: Vec<(u16, GateRef, Option<u32>, u16, u16, bool)>,
     /// ids of messages this module echoes back on the given gate
     echoes: Vec<(u16, GateRef)>,
+    /// distance between two time slots (ns): long enough for a message and its echo to leave the chain
+    spacing: u128,
 }
 
 impl Module for Node {
     fn at_sim_start(&mut self, _: usize) {
         for (id, _, _, _, slot, _) in &self.sends {
-            schedule_in(Message::default().kind(1).id(*id), Duration::from_secs(100 * (*slot as u64 + 1)));
+            schedule_in(Message::default().kind(1).id(*id), du(self.spacing * (*slot as u128 + 1)));
         }
     }
     fn handle_message(&mut self, msg: Message) {
@@ -163,7 +165,7 @@ pub fn run_case(case: &Case) -> Result<(bool, Vec<&'static str>), Failure> {
     // filled in afterwards through as_mut
     let paths: Vec<String> = (0..nmod).map(|i| format!("m{i}")).collect();
     for p in &paths {
-        sim.node(p.as_str(), Node { sends: Vec::new(), echoes: Vec::new() });
+        sim.node(p.as_str(), Node { sends: Vec::new(), echoes: Vec::new(), spacing: 0 });
     }
     let owners: Vec<usize> = case.gates.iter().map(|g| idx(g.owner, nmod)).collect();
     let mut gates: Vec<GateRef> = Vec::new();
@@ -281,6 +283,14 @@ pub fn run_case(case: &Case) -> Result<(bool, Vec<&'static str>), Failure> {
         .enumerate()
         .map(|(i, s)| s.follower && !s.echo && slots.iter().filter(|x| **x == slots[i]).count() == 1)
         .collect();
+    // time slots are 100 s apart, or further if the slowest possible message (2063 bytes) and its echo need longer
+    // to leave the chain (a 1 bit/s hop keeps its channel busy for hours)
+    let spacing: u128 = {
+        let worst: u128 = hop_ch.iter().map(|c| hop_delay(c, 64 + 1999)).sum();
+        (100_000_000_000u128).max((2 * worst / 1_000_000_000 + 100) * 1_000_000_000)
+    };
+    a_mod.as_mut::<Node>().spacing = spacing;
+    b_mod.as_mut::<Node>().spacing = spacing;
     for (i, s) in case.sends.iter().enumerate() {
         let (m, g) = if s.from_far_end { (&b_mod, gates[k].clone()) } else { (&a_mod, gates[0].clone()) };
         m.as_mut::<Node>().sends.push((i as u16, g, s.delay, s.body % 2000, slots[i], follower_ok[i]));
@@ -325,7 +335,7 @@ pub fn run_case(case: &Case) -> Result<(bool, Vec<&'static str>), Failure> {
     let mut queued = false;
     for (i, s) in case.sends.iter().enumerate() {
         let len = 64 + (s.body % 2000) as usize;
-        let t0 = 100_000_000_000u128 * (slots[i] as u128 + 1) + s.delay.unwrap_or(0) as u128;
+        let t0 = spacing * (slots[i] as u128 + 1) + s.delay.unwrap_or(0) as u128;
         let hops: Vec<usize> = if s.from_far_end { (0..k).rev().collect() } else { (0..k).collect() };
         let mut t = t0;
         let mut want_probes: Vec<(u128, i64)> = Vec::new();
@@ -490,14 +500,14 @@ impl Prop for C08 {
     }
     fn assumptions() -> Vec<String> {
         vec![
-            "sends are 100 s apart, so no channel is busy when a first message arrives; the arrival time of a queued second message is only bounded from below (queueing delays are C07)".into(),
+            "sends are at least 100 s apart (further if the chain's worst-case traversal time demands it), so no channel is busy when a first message arrives; the arrival time of a queued second message is only bounded from below (queueing delays are C07)".into(),
             "transmission time is computed as Duration::from_secs_f64(len*8/bitrate) like the code does; its accuracy is checked in C07".into(),
         ]
     }
     fn plan(tier: Tier) -> Plan {
         Plan {
             shards: tier.pick(4, 16),
-            cases_per_shard: tier.pick(2_000, 12_000),
+            cases_per_shard: tier.pick(2_000, 36_000),
             watchdog: StdDuration::from_secs(tier.pick(300, 3600)),
         }
     }
